@@ -29,10 +29,10 @@ harness.  Vectors are `DVec α = List α`, matrices `DMat α = List (List α)` (
   time followed every later `forward`/`reset`/assignment while `_ref_f/_ref_g` stayed frozen;
   `aliasX = true` — before fix D38 `_ref_state`, `_ref_input` were the *caller's tensors* (no copy), so an in-place
   update of those tensors by the caller (`poke`) moved the reference point while `_ref_f/_ref_g` stayed frozen.
-  `partialF = false` (default) is the documented behaviour of error paths: a `forward` or `set_refpoint` that raises leaves
-  the object as it was. `partialF = true` is the code as it stands: `self.state/self.input` are assigned before the user
-  function runs, and `set_refpoint` assigns `_ref_state`, `_ref_input`, `_ref_t` one by one before `_ref_f`, so a call that
-  raises leaves a partial update behind.
+  `partialF = true` is the code: `self.state/self.input` are assigned before the user function runs, and `set_refpoint`
+  assigns `_ref_state`, `_ref_input`, `_ref_t` one by one before `_ref_f`, so a call that raises leaves a partial update
+  behind (an observation, outside the property: its quantifier has no raising calls). `partialF = false` is what atomic
+  error paths would give; it is used only to state that variant (`nls_failed_call_atomic`).
 -/
 namespace PP.Dyn
 variable {α : Type} [Scalar α]
@@ -479,9 +479,10 @@ def NEv.toEv : NEv α → Ev
   | .callRaise _ _ => .callRaise
   | .refRaise _ _ _ => .refpoint none
 
-/-- events that *successfully* set the reference point (a raising `set_refpoint` changes nothing: error paths are atomic) -/
+/-- any `set_refpoint` attempt (successful, unresolved arguments, or a user function that raises) -/
 def NEv.isRef : NEv α → Bool
   | .refpoint _ _ _ => true
+  | .refRaise _ _ _ => true
   | _ => false
 
 def NEv.isPoke : NEv α → Bool
